@@ -131,6 +131,19 @@ pub struct FaultSpec {
 	pub op_index: u32,
 	pub phase: Phase,
 	pub fired: bool,
+	/// if set: ordinal of the raw op on that thread since the end of setup (ignores call/op_index)
+	pub global_index: Option<u32>,
+}
+
+#[derive(Clone, Debug)]
+pub struct FaultInfo {
+	pub lock: LockId,
+	pub op: Op,
+	pub mode: Mode,
+	pub phase: Phase,
+	pub held: Vec<(LockId, Mode)>,
+	pub call_label: &'static str,
+	pub lock_held_by_other: bool,
 }
 
 pub const PF_LOCK: u8 = 1;
@@ -175,6 +188,8 @@ pub struct ThreadSt {
 	pub calls: u32,
 	pub ops: Vec<RawRec>,
 	pub prio: u32,
+	/// raw ops issued by this thread since the end of setup
+	pub raw_seq: u32,
 }
 
 #[derive(Clone, Debug)]
@@ -267,6 +282,8 @@ pub struct Inner {
 	pub call_counter: u32,
 	/// lock id -> group (owned units are one indivisible group; default = own id)
 	pub group: Vec<u32>,
+	/// what the faulting thread held when the (first) fault fired, and on which lock/op
+	pub fault_info: Option<FaultInfo>,
 	pub pct_points: Vec<u64>,
 	pub deadlock_witness: String,
 }
@@ -330,6 +347,7 @@ impl World {
 				calls: 0,
 				ops: Vec::new(),
 				prio: rng.next_u32(),
+				raw_seq: 0,
 			});
 		}
 		let mut pct_points = Vec::new();
@@ -366,6 +384,7 @@ impl World {
 				writes_done: vec![0],
 				call_counter: 0,
 				group: vec![0],
+				fault_info: None,
 				pct_points,
 				deadlock_witness: String::new(),
 			}),
@@ -467,6 +486,18 @@ impl World {
 		}
 	}
 
+	/// harness: clear the audit state of a lock (so that only happylock's own flags can refuse it)
+	pub fn force_free(&self, lock: LockId) {
+		let mut g = self.g();
+		let l = &mut g.locks[lock as usize];
+		l.excl = None;
+		l.shared.clear();
+	}
+
+	pub fn raw_seq(&self, tid: Tid) -> u32 {
+		self.g().threads[tid as usize].raw_seq
+	}
+
 	pub fn set_persistent_fault(&self, lock: LockId, mask: u8) {
 		self.g().locks[lock as usize].persistent_fault = mask;
 	}
@@ -545,6 +576,8 @@ impl World {
 		g.stats.raw_ops += 1;
 		let op_index = g.threads[tid as usize].ops.len() as u32;
 		let call_ord = g.threads[tid as usize].calls;
+		let raw_seq = g.threads[tid as usize].raw_seq;
+		g.threads[tid as usize].raw_seq += 1;
 		let held_now = held_of(&g, tid);
 		let held_before = held_now.len() as u16;
 		let my_group = g.group[lock as usize];
@@ -584,14 +617,30 @@ impl World {
 			fault_phase = Some(Phase::Before);
 		} else {
 			for f in g.faults.iter_mut() {
-				if !f.fired
-					&& f.tid == tid && (f.call == u32::MAX || f.call == call_ord)
-					&& f.op_index == op_index
-				{
+				let hit = match f.global_index {
+					Some(gi) => gi == raw_seq,
+					None => (f.call == u32::MAX || f.call == call_ord) && f.op_index == op_index,
+				};
+				if !f.fired && f.tid == tid && hit {
 					f.fired = true;
 					fault_phase = Some(f.phase);
 					break;
 				}
+			}
+		}
+		if let Some(ph) = fault_phase {
+			if g.fault_info.is_none() {
+				let l = &g.locks[lock as usize];
+				let other = l.excl.map_or(false, |t| t != tid) || l.shared.iter().any(|t| *t != tid);
+				g.fault_info = Some(FaultInfo {
+					lock,
+					op,
+					mode,
+					phase: ph,
+					held: held_now.clone(),
+					call_label: g.threads[tid as usize].call.map(|c| c.label).unwrap_or("-"),
+					lock_held_by_other: other,
+				});
 			}
 		}
 		if fault_phase == Some(Phase::Before) {
